@@ -17,6 +17,7 @@ import (
 	"bytes"
 	"context"
 	"encoding/binary"
+	jsonMod "encoding/json"
 	"errors"
 	"fmt"
 	"io"
@@ -88,7 +89,13 @@ func msEval(m layer4.ConnMatcher, cx *layer4.Connection) (v string, detail strin
 			v, detail = vdPanic, fmt.Sprint(r)
 		}
 	}()
-	ok, err := layer4.MatcherSet{m}.Match(cx)
+	var ok bool
+	var err error
+	if a, isAny := m.(*msAny); isAny {
+		ok, err = a.mss.AnyMatch(cx) // the OR over a route's matcher sets, as RouteList.Compile calls it
+	} else {
+		ok, err = layer4.MatcherSet{m}.Match(cx)
+	}
 	switch {
 	case err == nil && ok:
 		return vdYes, ""
@@ -100,6 +107,11 @@ func msEval(m layer4.ConnMatcher, cx *layer4.Connection) (v string, detail strin
 		return vdFail, err.Error()
 	}
 }
+
+// msAny carries a route's matcher sets; msEval evaluates it with MatcherSets.AnyMatch
+type msAny struct{ mss layer4.MatcherSets }
+
+func (a *msAny) Match(cx *layer4.Connection) (bool, error) { return a.mss.AnyMatch(cx) }
 
 func msTotalAlloc() uint64 {
 	var ms runtime.MemStats
@@ -968,6 +980,94 @@ func TestVerifMSmall(t *testing.T) {
 		}},
 	}
 
+	// MatcherSets.AnyMatch over real matchers, matching set first / last / in the middle
+	pg := func() layer4.ConnMatcher { return &l4postgres.MatchPostgres{} }
+	xm := func() layer4.ConnMatcher { return &l4xmpp.MatchXMPP{} }
+	mkAny := func(sets ...[]layer4.ConnMatcher) func() layer4.ConnMatcher {
+		return func() layer4.ConnMatcher {
+			a := &msAny{}
+			for _, st := range sets {
+				a.mss = append(a.mss, layer4.MatcherSet(st))
+			}
+			return a
+		}
+	}
+	// streams of an OR come from the generators of its members in turn; the reference is only
+	// claimed where every member has seen enough bytes to decide (minLen)
+	orGen := func(minLen int, gens ...func(*vRng, int) msStream) func(*vRng, int) msStream {
+		return func(r *vRng, i int) msStream {
+			st := gens[i%len(gens)](r, i/len(gens))
+			st.refc, st.key = "", ""
+			if st.ref != 1 || len(st.b) < minLen || st.cls == "valid-late-ns" {
+				st.ref = -1 // a stream that is invalid for its own protocol may still be valid for another member
+			}
+			return st
+		}
+	}
+	s5gen := s5.gen
+	matchers = append(matchers, msMatcher{tag: "anymatch", cfgs: []msCfg{
+		{coq: "MAny [[MSsh]; [" + s5.coq + "]]", build: mkAny([]layer4.ConnMatcher{ssh()}, []layer4.ConnMatcher{s5.build()}), gate: 4, gen: orGen(4, msGenSSH, s5gen)},
+		{coq: "MAny [[" + s5.coq + "]; [MSsh]]", build: mkAny([]layer4.ConnMatcher{s5.build()}, []layer4.ConnMatcher{ssh()}), gate: 4, gen: orGen(4, msGenSSH, s5gen)},
+		{coq: "MAny [[MPP]; [MSsh]; [MPg]]", build: mkAny([]layer4.ConnMatcher{pp()}, []layer4.ConnMatcher{ssh()}, []layer4.ConnMatcher{pg()}), gate: 12, gen: orGen(12, msGenPP, msGenSSH, msGenPG)},
+		{coq: "MAny [[MPg]; [MPP]; [MSsh]]", build: mkAny([]layer4.ConnMatcher{pg()}, []layer4.ConnMatcher{pp()}, []layer4.ConnMatcher{ssh()}), gate: 12, gen: orGen(12, msGenSSH, msGenPG, msGenPP)},
+		{coq: "MAny [[MXmpp]; [MSsh]]", build: mkAny([]layer4.ConnMatcher{xm()}, []layer4.ConnMatcher{ssh()}), gate: 50, gen: orGen(50, msGenSSH, msGenXMPP)},
+		{coq: "MAny [[MSsh; MPP]; [MTls]]", build: mkAny([]layer4.ConnMatcher{ssh(), pp()}, []layer4.ConnMatcher{mkTLS()}), gate: 5,
+			gen: func(r *vRng, i int) msStream {
+				if i%2 == 0 {
+					return orGen(12, msGenTLS)(r, i/2)
+				}
+				st := msGenSSH(r, i/2) // matches ssh but not the conjunction ssh AND proxy_protocol
+				st.ref, st.refc, st.key = -1, "", ""
+				return st
+			}},
+		{coq: "MAny []", build: mkAny(), gate: 0, gen: func(r *vRng, i int) msStream { st := msGenSSH(r, i); st.ref, st.refc = 1, ""; return st }},
+	}})
+
+	// not provisioned through caddy's module loading from its JSON form (MatcherSetsRaw), the only
+	// way to get more than one negated matcher set
+	notJSON := func(sets ...caddy.ModuleMap) func() layer4.ConnMatcher {
+		return func() layer4.ConnMatcher {
+			m := &layer4.MatchNot{MatcherSetsRaw: sets}
+			msMust(m.Provision(msCtx))
+			return m
+		}
+	}
+	raw := func(name, js string) caddy.ModuleMap { return caddy.ModuleMap{name: jsonMod.RawMessage(js)} }
+	matchers = append(matchers, msMatcher{tag: "not", cfgs: []msCfg{
+		{coq: "MNot [[MSsh]; [MPP]]", build: notJSON(raw("ssh", "{}"), raw("proxy_protocol", "{}")), gate: 4,
+			gen: func(r *vRng, i int) msStream {
+				var st msStream
+				if i%2 == 0 {
+					st = msGenSSH(r, i/2)
+				} else {
+					st = msGenPP(r, i/2)
+				}
+				st = flip(func(*vRng, int) msStream { return st }, neg)(r, i)
+				if len(st.b) < 12 {
+					st.ref = -1
+				}
+				return st
+			}},
+		{coq: "MNot [[MPP]; [MSsh]; [MS5 [0]]]", build: notJSON(raw("proxy_protocol", "{}"), raw("ssh", "{}"), raw("socks5", `{"auth_methods":[0]}`)), gate: 4,
+			gen: func(r *vRng, i int) msStream {
+				var st msStream
+				switch i % 3 {
+				case 0:
+					st = msGenPP(r, i/3)
+				case 1:
+					st = msGenSSH(r, i/3)
+				default:
+					st = msS5([]uint16{0}).gen(r, i/3)
+				}
+				valid := st.ref == 1
+				st.ref, st.refc, st.key = -1, "", ""
+				if valid && len(st.b) >= 12 {
+					st.ref = 0 // a valid message of any negated protocol must not match
+				}
+				return st
+			}},
+	}})
+
 	seen := map[string]bool{}
 	emit := func(term, cls string, nt bool, sample any) {
 		if seen[term] {
@@ -1368,6 +1468,68 @@ func msIP(out *vOut, r *vRng, n int, emit func(string, string, bool, any)) {
 					}
 				}
 				emit(fmt.Sprintf("KIp %s %s %s", msCIDRsCoq(cidrs), acoq, v), tag+"/"+v, perr == nil, in)
+			}
+		}
+
+		// not [{remote_ip A},{remote_ip B},...] provisioned from JSON: this range set against the next two
+		if si+2 < len(rangeSets) {
+			groups := [][]string{rs, rangeSets[si+1], rangeSets[si+2]}
+			if si%2 == 1 {
+				groups = groups[:2]
+			}
+			var gc [][]msCIDR
+			var rawSets []caddy.ModuleMap
+			mappedAny := false
+			for _, g := range groups {
+				var cs []msCIDR
+				for _, x := range g {
+					c := msParseCIDR(x)
+					cs = append(cs, c)
+					mappedAny = mappedAny || c.pfx.Addr().Is4In6()
+				}
+				gc = append(gc, cs)
+				js, _ := jsonMod.Marshal(map[string]any{"ranges": g})
+				rawSets = append(rawSets, caddy.ModuleMap{"remote_ip": js})
+			}
+			var hs []string
+			for _, cs := range gc {
+				for _, c := range cs {
+					a := c.pfx.Masked().Addr()
+					hs = append(hs, a.String(), a.Next().String(), a.Prev().String())
+				}
+			}
+			hs = append(hs, "10.1.2.3", "192.168.0.1", "8.8.8.8", "2001:db8::1", "fe80::1", "::1", "203.0.113.65")
+			for _, h := range hs {
+				ip := net.ParseIP(h)
+				if ip == nil {
+					continue
+				}
+				m := &layer4.MatchNot{MatcherSetsRaw: rawSets}
+				msMust(m.Provision(msCtx))
+				conn := msNewConn(false)
+				conn.remote = &net.TCPAddr{IP: ip, Port: 1 + r.Intn(65535)}
+				cx := layer4.WrapConnection(conn, []byte("x"), zap.NewNop())
+				v, d := msEval(m, cx)
+				in := map[string]any{"matcher": "not", "negated_sets": groups, "address": conn.remote.String()}
+				if v == vdPanic {
+					out.Fail("C04:not:panic", d, in)
+				}
+				a, _ := netip.ParseAddr(h)
+				var setsCoq []string
+				any := false
+				for _, cs := range gc {
+					setsCoq = append(setsCoq, msCIDRsCoq(cs))
+					any = any || msCIDRsRef(cs, ip)
+				}
+				if !mappedAny {
+					if !any && v != vdYes {
+						out.Fail("C14:not:rejects-valid", "the address lies in none of the negated range sets, the matcher answered "+v, in)
+					}
+					if any && v == vdYes {
+						out.Fail("C14:not:accepts-invalid", "the address lies in one of the negated range sets, the matcher answered Yes", in)
+					}
+				}
+				emit(fmt.Sprintf("KNotIpSets [%s] (Some (%s, %s, false)) %s", strings.Join(setsCoq, "; "), cBool(a.Is6()), msAddrZ(a), v), "not-remote_ip-sets/"+v, true, in)
 			}
 		}
 
